@@ -3,7 +3,8 @@
    reader used as the "independent reader" is Model.Recovery.open_image (read-only mode). *)
 From Coq Require Import List NArith Bool.
 From Feox Require Import Gen.Constants Model.Bytes Model.Crc32c Model.Codec Proofs.CodecProofs.
-From Feox Require Import Model.FreeSpace Model.Recovery Proofs.ScanAcceptsProofs.
+From Feox Require Import Model.FreeSpace Model.Recovery Proofs.ScanAcceptsProofs Proofs.ScanQuiescentProofs.
+From Feox Require Proofs.FreeSpaceProofs.
 Import ListNotations.
 Local Open Scope N_scope.
 
@@ -300,6 +301,91 @@ Check every_laid_out_record_is_indexed : forall c version rs sector st r,
             Some (mkentry (r_key r) (r_ts r) (if has_expiry version then r_exp r else 0) (N.of_nat (length (r_value r))) s).
 Print Assumptions every_laid_out_record_is_indexed.
 
+(* ---- any quiescent data area: live records with pairwise distinct keys, completed marker runs and
+   free blocks in any order (v3).  The scan ends without error; the index holds every record with its
+   timestamp, expiry and value length and nothing else is added (the count grows by the number of
+   records, entries of other keys stay); nothing is queued for retirement; and the free-space manager
+   the scan builds holds, up to the end of the last record, exactly the blocks no record covers ---- *)
+Theorem scan_reads_any_quiescent_data_area : forall c version total jl img,
+  c_ro c = false -> has_token version = true -> total <= U64MAX ->
+  forall its fuel sector st,
+  Forall (item_ok version) its -> distinct_keys (recs_of its) ->
+  (forall r, In r (recs_of its) -> idx_find (r_key r) (rs_idx st) = None) ->
+  SInv total sector st ->
+  skipn (N.to_nat sector) img = ilayout version sector its ->
+  total = sector + isum version its ->
+  (length its < fuel)%nat ->
+  exists st',
+    scan fuel c version total img sector st jl = Ok st' /\
+    SInv total total st' /\ rs_last_end st <= rs_last_end st' /\
+    (forall r, In r (recs_of its) -> exists s, idx_find (r_key r) (rs_idx st') = Some (entry_of version r s)) /\
+    (forall k e, idx_find k (rs_idx st) = Some e -> (forall r, In r (recs_of its) -> list_eqb (r_key r) k = false) ->
+                 idx_find k (rs_idx st') = Some e) /\
+    rs_count st' = rs_count st + N.of_nat (length (recs_of its)) /\
+    rs_retired st' = rs_retired st /\
+    (forall b, FreeSpaceProofs.free (rs_fs st') b <->
+               FreeSpaceProofs.free (rs_fs st) b \/ (rs_last_end st <= b < rs_last_end st' /\ ~ covered version sector its b)) /\
+    (forall b, rs_last_end st' <= b -> ~ covered version sector its b).
+Proof. exact scan_reads_a_quiescent_data_area. Qed.
+Check scan_reads_any_quiescent_data_area : forall c version total jl img,
+  c_ro c = false -> has_token version = true -> total <= U64MAX ->
+  forall its fuel sector st,
+  Forall (item_ok version) its -> distinct_keys (recs_of its) ->
+  (forall r, In r (recs_of its) -> idx_find (r_key r) (rs_idx st) = None) ->
+  SInv total sector st ->
+  skipn (N.to_nat sector) img = ilayout version sector its ->
+  total = sector + isum version its ->
+  (length its < fuel)%nat ->
+  exists st',
+    scan fuel c version total img sector st jl = Ok st' /\
+    SInv total total st' /\ rs_last_end st <= rs_last_end st' /\
+    (forall r, In r (recs_of its) -> exists s, idx_find (r_key r) (rs_idx st') = Some (entry_of version r s)) /\
+    (forall k e, idx_find k (rs_idx st) = Some e -> (forall r, In r (recs_of its) -> list_eqb (r_key r) k = false) ->
+                 idx_find k (rs_idx st') = Some e) /\
+    rs_count st' = rs_count st + N.of_nat (length (recs_of its)) /\
+    rs_retired st' = rs_retired st /\
+    (forall b, FreeSpaceProofs.free (rs_fs st') b <->
+               FreeSpaceProofs.free (rs_fs st) b \/ (rs_last_end st <= b < rs_last_end st' /\ ~ covered version sector its b)) /\
+    (forall b, rs_last_end st' <= b -> ~ covered version sector its b).
+Print Assumptions scan_reads_any_quiescent_data_area.
+
+(* from the state open_image starts with, including the release of the tail after the scan: every
+   block of the data area is free exactly when no live record's extent covers it *)
+Theorem quiescent_data_area_is_read_and_partitioned : forall c version total jl img,
+  c_ro c = false -> has_token version = true -> total <= U64MAX ->
+  forall its st0,
+  rs_fs st0 = mkfs [] (total * FEOX_BLOCK_SIZE) 0 0 -> rs_last_end st0 = FEOX_DATA_START_BLOCK -> rs_idx st0 = [] ->
+  total * FEOX_BLOCK_SIZE < U64 ->
+  Forall (item_ok version) its -> distinct_keys (recs_of its) ->
+  skipn (N.to_nat FEOX_DATA_START_BLOCK) img = ilayout version FEOX_DATA_START_BLOCK its ->
+  total = FEOX_DATA_START_BLOCK + isum version its -> 0 < isum version its ->
+  exists st' st'',
+    scan (S (length its)) c version total img FEOX_DATA_START_BLOCK st0 jl = Ok st' /\
+    (if rs_last_end st' <? total then fs_release st' (rs_last_end st') (total - rs_last_end st') else Ok st') = Ok st'' /\
+    (forall r, In r (recs_of its) -> exists s, idx_find (r_key r) (rs_idx st'') = Some (entry_of version r s)) /\
+    rs_count st'' = rs_count st0 + N.of_nat (length (recs_of its)) /\
+    rs_retired st'' = rs_retired st0 /\
+    (forall b, FEOX_DATA_START_BLOCK <= b < total ->
+               (FreeSpaceProofs.free (rs_fs st'') b <-> ~ covered version FEOX_DATA_START_BLOCK its b)).
+Proof. exact quiescent_data_area_is_partitioned. Qed.
+Check quiescent_data_area_is_read_and_partitioned : forall c version total jl img,
+  c_ro c = false -> has_token version = true -> total <= U64MAX ->
+  forall its st0,
+  rs_fs st0 = mkfs [] (total * FEOX_BLOCK_SIZE) 0 0 -> rs_last_end st0 = FEOX_DATA_START_BLOCK -> rs_idx st0 = [] ->
+  total * FEOX_BLOCK_SIZE < U64 ->
+  Forall (item_ok version) its -> distinct_keys (recs_of its) ->
+  skipn (N.to_nat FEOX_DATA_START_BLOCK) img = ilayout version FEOX_DATA_START_BLOCK its ->
+  total = FEOX_DATA_START_BLOCK + isum version its -> 0 < isum version its ->
+  exists st' st'',
+    scan (S (length its)) c version total img FEOX_DATA_START_BLOCK st0 jl = Ok st' /\
+    (if rs_last_end st' <? total then fs_release st' (rs_last_end st') (total - rs_last_end st') else Ok st') = Ok st'' /\
+    (forall r, In r (recs_of its) -> exists s, idx_find (r_key r) (rs_idx st'') = Some (entry_of version r s)) /\
+    rs_count st'' = rs_count st0 + N.of_nat (length (recs_of its)) /\
+    rs_retired st'' = rs_retired st0 /\
+    (forall b, FEOX_DATA_START_BLOCK <= b < total ->
+               (FreeSpaceProofs.free (rs_fs st'') b <-> ~ covered version FEOX_DATA_START_BLOCK its b)).
+Print Assumptions quiescent_data_area_is_read_and_partitioned.
+
 (* non-vacuity: two records (one of them spanning two blocks) on a v3 layout *)
 Example packed_area_is_scanned :
   let r1 := mkrec [107; 49] (repeat 7 5000) 11 0 in
@@ -315,3 +401,16 @@ Example packed_area_is_scanned :
   | _ => False
   end.
 Proof. vm_compute. reflexivity. Qed.
+
+(* non-vacuity for the general layout: free block, record, completed marker run of two, record *)
+Example quiescent_area_is_scanned :
+  let r1 := mkrec [107; 49] (repeat 7 5000) 11 0 in
+  let r2 := mkrec [107; 50] [1; 2; 3] 12 99 in
+  let its := [IFree; IRec r1; IMark 2; IRec r2] in
+  let img := repeat (repeat 0 BLOCK) 16 ++ ilayout 3 16 its in
+  match scan 5 (mkcfg false false None 168) 3 22 img 16 (mkrs [] (mkfs [] (22 * 4096) 0 0) 0 0 0 [] 16 0) [] with
+  | Ok st => map (fun e => (e_key e, e_sector e)) (rs_idx st) = [([107; 49], 17); ([107; 50], 21)]
+             /\ runs (rs_fs st) = [(16, 1); (19, 2)] /\ rs_retired st = []
+  | _ => False
+  end.
+Proof. vm_compute. repeat split; reflexivity. Qed.
